@@ -95,7 +95,9 @@ class LinDichSpectrumBase(DFunction, EnergyUnitsManaged):
         step = (omax-omin)/length
         
         # new frequency axis
-        waxis = FrequencyAxis(omin, length, step)
+        # the points are already in internal units
+        with energy_units("int"):
+            waxis = FrequencyAxis(omin, length, step)
         
         # spline interpolation 
         tck = interpolate.splrep(om, y, s=0)
